@@ -339,6 +339,19 @@ func flowScenario(p flowParams) verifkit.Scenario {
 								desired.Connectors[i].Settings = map[string]string{"x": gen}
 							}
 						}
+					case "procbad": // a processor-only edit whose new configuration cannot even be BUILT (no such plugin)
+						for i := range desired.Processors {
+							if desired.Processors[i].ID == "pp" {
+								desired.Processors[i].Plugin = "no-such-processor-plugin"
+								desired.Processors[i].Settings = map[string]string{"gen": gen}
+							}
+						}
+					case "dlqthresh": // only the nack threshold of the dead-letter queue changes
+						th := 1
+						if desired.DLQ.WindowNackThreshold != nil {
+							th = *desired.DLQ.WindowNackThreshold + 1
+						}
+						desired.DLQ.WindowNackThreshold = &th
 					case "addproc":
 						desired.Processors = append(desired.Processors, config.Processor{ID: "pnew" + gen, Plugin: "pnew", Settings: map[string]string{"gen": gen}, Workers: 1})
 					}
